@@ -35,11 +35,11 @@ Proof.
 Qed.
 Lemma const_text_int z : const_text (NInt z) (z <? 0) (show_nat (Z.abs z)) (NInt (Z.abs z)).
 Proof.
-  unfold const_text. repeat split.
+  unfold const_text. split; [|split; [|split; [|split]]].
   - cbn [show_num]. unfold show_int. destruct (z <? 0) eqn:E; cbn [app]; [apply Z.ltb_lt in E; now rewrite Z.abs_neq by lia|apply Z.ltb_ge in E; now rewrite Z.abs_eq by lia].
   - apply forallb_forall. intros x Hx. apply digit_is_number. pose proof (show_nat_digits (Z.abs z) (Z.abs_nonneg z)) as F. rewrite Forall_forall in F. auto.
   - apply show_nat_nonempty.
   - unfold coerce. rewrite <- (app_nil_r (show_nat (Z.abs z))) at 1. rewrite split_dot_digits by (apply show_nat_digits; apply Z.abs_nonneg).
     cbn [split_dot fst snd]. rewrite app_nil_r. f_equal. f_equal. apply val_show_nat. apply Z.abs_nonneg.
-  - destruct (z <? 0) eqn:E; cbn [nneg]; f_equal; [apply Z.ltb_lt in E|apply Z.ltb_ge in E]; lia.
+  - unfold num_equiv. destruct (z <? 0) eqn:E; cbn [nneg qv]; [apply Z.ltb_lt in E|apply Z.ltb_ge in E]; unfold Qeq; cbn; lia.
 Qed.
